@@ -126,6 +126,15 @@ def run(ck):
                     ck.fail(["C10", "position-big", t if len(t) <= 12 else core.sig_hash(t)],
                             "a column / line at the end of the u32 range is not clamped to the line end / text end for text %r" % t[:40],
                             {"cmd": "li", "text_hex": hexs(t), "maxcol": 0, "big": True}, observed=r[-400:], expected=exp[-400:])
+        # ranges: a pair of positions through `from_proto::range` is the pair of offsets, for every i <= j (also when the end column is
+        # smaller than the start column, on a later line)
+        rt = [t for t in texts if 0 < len(t) <= 200]
+        if name == "exhaustive" and len(rt) > 20000:
+            rt = rt[:: len(rt) // 20000 + 1]
+        for t, r in zip(rt, core.impl(["lir %s" % hexs(t) for t in rt], tag="lir" + name)):
+            if not r.startswith("ok"):
+                ck.fail(["C10", "range", t if len(t) <= 12 else core.sig_hash(t)], "a range sent back through from_proto::range is not the pair of its offsets for text %r: %s" % (t[:40], r[:120]),
+                        {"cmd": "lir", "text_hex": hexs(t)}, observed=r[:300], expected="ok")
         nontriv = set()
         for t, ra, rall in zip(texts, a, allo):
             if any(ord(c) > 127 or c in "\r\n" for c in t):
@@ -150,6 +159,10 @@ def replay(ck, path):
         rp = json.load(f)
     case = rp["case"]
     core.build_harness()
+    if case.get("cmd") == "lir":
+        out = core.impl(["lir %s" % case["text_hex"]])
+        print("impl (ranges):", out[0][:500])
+        return 0 if out[0].startswith("ok") else 1
     text = bytes.fromhex(case["text_hex"]).decode("utf-8")
     mc = case.get("maxcol", min(u16len(text) + 2, 40))
     out = core.impl(["li %s %d" % (case["text_hex"], mc), "li %s 0 all" % case["text_hex"]])
